@@ -19,13 +19,23 @@ GLOBS = ['ga', 'gb']
 KIDS = ['k1', 'k2', 'k3']
 PORTS = ['pa', 'pb', 'pc', 'pd']
 GLOBDICT_WEIGHT = [0]      # weight of glob ports with a '*' sub-topology in gen_port (set by the callers)
-ALL_NAMES = COMPS + BRANCH + NEST + VARS + GLOBS + KIDS + PORTS + ['p0', 'p1', 'p2', 'p3']
+GLOBS_R = ['gc', 'gd']     # glob nodes whose '*' sub-topology redirects sub-variables (one sub-topology per node)
+ALL_NAMES = COMPS + BRANCH + NEST + VARS + GLOBS + KIDS + PORTS + ['p0', 'p1', 'p2', 'p3'] + GLOBS_R
 
 
 # ------------------------------------------------------------------ generation
 
 def gen_var(rng):
     return {'$var': {'default': rng.choice([0, 1, 2, 5, -3]), 'value': None, 'units': None}}
+
+
+GLOB_DEFAULT = {'x': 5, 'y': 1, 'z': 0, 'w': 2}
+
+
+def gen_glob_var(rng, v):
+    """sub-variables of glob ports get one default per name: several globs (and named ports wired into their
+    children) meet on one node, and which of two conflicting `_default`s wins there is outside the claim"""
+    return {'$var': {'default': GLOB_DEFAULT[v], 'value': None, 'units': None}}
 
 
 def gen_vars_schema(rng, nested_ok=True):
@@ -59,20 +69,28 @@ def gen_port(rng, depth):
     if kind == 'globdict':
         # a glob port whose topology entry is a dict with a '*' sub-topology; '_path' beside or inside it
         vs = rng.sample(VARS, rng.randint(1, 2))
-        sub = {'$node': {'out': False, 'c': [[v, gen_var(rng)] for v in vs]}}
+        sub = {'$node': {'out': False, 'c': [[v, gen_glob_var(rng, v)] for v in vs]}}
         sch = {'$node': {'out': False, 'c': [['*', sub]]}}
         # every declared sub-variable is listed (well-formed domain: an unlisted one is read at its default
         # place while its updates are dropped, as for a dict topology without '_path')
         ents = [[v, {'$path': rng.choice([[v], [rng.choice(NEST), v], [rng.choice(VARS)]])}] for v in vs]
         base = ups(rng, depth) + [rng.choice(GLOBS)]
-        if rng.random() < 0.5:
+        r = rng.random()
+        if r >= 0.3 and any(e[1]['$path'] != [e[0]] for e in ents):
+            # a node has ONE sub-topology: redirecting ones get nodes of their own, apart from the plain globs
+            # (into whose children named ports may be wired)
+            base = ups(rng, depth) + [rng.choice(GLOBS_R)]
+        if r < 0.3:
+            # the '*' entry is a tuple path: the children of the node it leads to
+            return sch, {'$dict': {'path': None, 'c': [['*', {'$path': base}]]}}
+        if r < 0.65:
             return sch, {'$dict': {'path': base, 'c': [['*', {'$dict': {'path': None, 'c': ents}}]]}}
         return sch, {'$dict': {'path': None, 'c': [['*', {'$dict': {'path': base, 'c': ents}}]]}}
     if kind in ('vars', 'output'):
         sch = {'$node': {'out': kind == 'output', 'c': gen_vars_schema(rng)}}
         return sch, {'$path': gen_target(rng, depth, 0 if rng.random() < 0.2 else 1)}
     if kind == 'glob':
-        sub = {'$node': {'out': False, 'c': [[v, gen_var(rng)] for v in rng.sample(VARS, rng.randint(1, 2))]}}
+        sub = {'$node': {'out': False, 'c': [[v, gen_glob_var(rng, v)] for v in rng.sample(VARS, rng.randint(1, 2))]}}
         sch = {'$node': {'out': False, 'c': [['*', sub]]}}
         return sch, {'$path': ups(rng, depth) + [rng.choice(GLOBS)]}
     c = gen_vars_schema(rng)
@@ -101,6 +119,19 @@ def gen_port(rng, depth):
     return sch, {'$dict': {'path': None, 'c': ents}}
 
 
+def glob_base(t):
+    """the path of the node whose children a glob port shows, when the sub-variables are not redirected"""
+    if '$path' in t:
+        return list(t['$path']) if t['$path'] and t['$path'][-1] in GLOBS else None
+    d = t['$dict']
+    star = [x for k, x in d['c'] if k == '*']
+    if len(d['c']) != 1 or not star:
+        return None
+    if '$path' in star[0]:
+        return (d['path'] or []) + list(star[0]['$path'])
+    return None
+
+
 def gen_procs(rng, max_procs=3):
     procs = []
     for i in range(rng.randint(1, max_procs)):
@@ -116,6 +147,17 @@ def gen_procs(rng, max_procs=3):
             pn2 = [p for p in PORTS if p not in [q[0] for q in ports]][0]
             ports.append([pn2, copy.deepcopy(ports[0][1])])
             topo.append([pn2, copy.deepcopy(topo[0][1])])
+        if rng.random() < 0.3:
+            # a named port wired into one child of a glob port of the same process, listed before it
+            for j, (pn, t) in enumerate(topo):
+                gp = glob_base(t)
+                sub = ports[j][1]['$node']['c'][0][1] if ports[j][1]['$node']['c'][0][0] == '*' else None
+                if gp is not None and sub is not None and '$node' in sub:
+                    pn2 = [p for p in PORTS if p not in [q[0] for q in ports]]
+                    if pn2:
+                        ports.insert(j, [pn2[0], copy.deepcopy(sub)])
+                        topo.insert(j, [pn2[0], {'$path': gp + [rng.choice(KIDS)]}])
+                    break
         procs.append({'parent': parent, 'name': 'p%d' % i,
                       'schema': {'$node': {'out': False, 'c': ports}}, 'topo': topo})
     return nested_order(procs)
